@@ -405,10 +405,11 @@ func (x *condXlat) callTerm(call *ast.CallExpr, depth int) string {
 	return fn + "(" + strings.Join(as, ",") + ")"
 }
 
-// soleTupleDef: local v is assigned exactly once, as the i-th result of a call.
+// soleTupleDef: local v is assigned exactly once, by its declaration, as the i-th result of a call.
 func soleTupleDef(info *types.Info, fd *ast.FuncDecl, v *types.Var) (*ast.CallExpr, int) {
 	var call *ast.CallExpr
 	idx, n := -1, 0
+	declares := false
 	ast.Inspect(fd.Body, func(m ast.Node) bool {
 		as, ok := m.(*ast.AssignStmt)
 		if !ok {
@@ -417,6 +418,9 @@ func soleTupleDef(info *types.Info, fd *ast.FuncDecl, v *types.Var) (*ast.CallEx
 		for i, l := range as.Lhs {
 			if id, ok := l.(*ast.Ident); ok && info.ObjectOf(id) == v {
 				n++
+				if as.Tok == token.DEFINE && info.Defs[id] == v {
+					declares = true
+				}
 				if len(as.Rhs) == 1 && len(as.Lhs) > 1 {
 					if c, ok := ast.Unparen(as.Rhs[0]).(*ast.CallExpr); ok {
 						call, idx = c, i
@@ -426,7 +430,7 @@ func soleTupleDef(info *types.Info, fd *ast.FuncDecl, v *types.Var) (*ast.CallEx
 		}
 		return true
 	})
-	if n == 1 && call != nil {
+	if n == 1 && call != nil && declares {
 		return call, idx
 	}
 	return nil, -1
